@@ -121,6 +121,11 @@ class Lin:
                     return lf_const(v) if isinstance(v, int) else None
                 if od and od[0] in ("multi", "param"):
                     return {"L%d" % od[1]: 1, 1: 0}
+                if od and od[0] == "place" and p["proj"] == ["deref"]:
+                    # `*r` with `r = &(opt as Some).0` (the by-reference binding a match guard sees): the place itself
+                    sd = self.b.single_def(l)
+                    if sd and sd["kind"] == "assign" and sd["stmt"]["rv"]["k"] == "ref" and not sd["stmt"]["rv"].get("mut"):
+                        return self.form({"copy": od[1]}, depth - 2)
             return None
         ds = [d for d in self.b.defs().get(l, []) if d["kind"] != "mutcall"]
         if len(ds) != 1:
@@ -178,6 +183,22 @@ class Lin:
                 else:
                     out += [lf_add(lf_const(1), k, -1)]  # 1 - len <= 0
         # assertion targets dominating blk also give facts (bounds checks that passed)
+        return out + self.checked_facts()
+
+    def checked_facts(self):
+        """`a.checked_sub(k)` is Some(d) only with d == a - k (so a >= k): facts about the payload symbol of the call's
+        result (the symbol is only ever read under the Some pattern)."""
+        if hasattr(self, "_cf"):
+            return self._cf
+        out = []
+        for bi, t in self.b.calls(r"num::<impl (usize|u64|u32|u16|u8)>::checked_(sub|add)$"):
+            a_, k_ = self.form(t["args"][0]), self.form(t["args"][1])
+            if a_ is None or k_ is None:
+                continue
+            val = lf_add(a_, k_, -1 if t["callee"].endswith("checked_sub") else 1)
+            pay = {"pay:_%d.0" % t["dest"]["local"]: 1, 1: 0}
+            out += [lf_add(pay, val, -1), lf_add(val, pay, -1), {"pay:_%d.0" % t["dest"]["local"]: -1, 1: 0}]
+        self._cf = out
         return out
 
 
